@@ -67,19 +67,63 @@ impl<R: BufRead> Decoder<R> {
     pub fn read_line(&mut self) -> IoResult<Option<&str>> {
         self.read_buf.clear();
 
-        if self.inner.read_until(b'\n', &mut self.read_buf)? == 0 {
-            return Ok(None);
-        }
+        loop {
+            if self.inner.read_until(b'\n', &mut self.read_buf)? == 0 {
+                if self.read_buf.is_empty() {
+                    return Ok(None);
+                }
 
-        // Reading up to b'\n' will miss the final b'\0' for an UTF-16LE encoded
-        // string so we need to read an additional byte.
-        if self.encoding == Encoding::Utf16LE && self.read_buf.ends_with(b"\n") {
-            let mut byte = 0;
-            self.inner.read_exact(slice::from_mut(&mut byte))?;
-            self.read_buf.push(byte);
+                break;
+            }
+
+            // For UTF-16, the byte 0x0A only terminates the line if it is
+            // the line feed code unit and not just one half of another code
+            // unit (e.g. U+4E0A). Lines always start on a code unit boundary
+            // so the length of `read_buf` tells which half was found.
+            let len = self.read_buf.len();
+
+            match self.encoding {
+                Encoding::Utf8 => break,
+                _ if !self.read_buf.ends_with(b"\n") => break,
+                Encoding::Utf16BE => {
+                    if len % 2 == 0 && self.read_buf[len - 2] == 0 {
+                        break;
+                    }
+                }
+                Encoding::Utf16LE => {
+                    if len % 2 == 1 {
+                        // Reading up to b'\n' will miss the second byte of
+                        // the code unit so we need to read an additional byte.
+                        match self.read_byte()? {
+                            Some(0) => {
+                                self.read_buf.push(0);
+
+                                break;
+                            }
+                            Some(byte) => self.read_buf.push(byte),
+                            // The data ends in the middle of a code unit
+                            None => break,
+                        }
+                    }
+                }
+            }
         }
 
         Ok(Some(self.curr_line()))
+    }
+
+    /// Reads a single byte; `None` means the reader is exhausted.
+    fn read_byte(&mut self) -> IoResult<Option<u8>> {
+        let mut byte = 0;
+
+        loop {
+            match self.inner.read(slice::from_mut(&mut byte)) {
+                Ok(0) => return Ok(None),
+                Ok(_) => return Ok(Some(byte)),
+                Err(ref err) if err.kind() == ErrorKind::Interrupted => {}
+                Err(err) => return Err(err),
+            }
+        }
     }
 
     pub fn curr_line(&mut self) -> &str {
